@@ -9,6 +9,7 @@
 -/
 import GoSecs.Lemmas.Secs1
 import GoSecs.Lemmas.Secs1Line
+import GoSecs.Lemmas.Secs1Gen
 import GoSecs.Gen.Consts
 
 namespace GoSecs.Props.C18
@@ -23,6 +24,21 @@ theorem consts_gen :
     Gen.secs1_minBlockLength = (minBlockLength : Int) ∧ Gen.secs1_maxBlockLength = (maxBlockLength : Int) ∧
     Gen.secs1_checksumSize = (checksumSize : Int) := by
   decide
+
+/-- The wire form the sender puts on the line (`block.appendTo`, regenerated from secs1/block.go) is the
+    model's `Block.wire` appended, for every block. -/
+theorem appendTo_gen (b : Block) (dst : Bytes) : Gen.secs1_block_appendTo b.toGen dst = some (appendTo dst b) :=
+  Secs1.appendTo_gen b dst
+
+/-- What the receiver accepts (`parseBlock`, regenerated from secs1/block.go) is what the model's
+    `parseBlock` accepts, with the same error for every rejected input — in particular a corrupted or
+    truncated block is NAKed in the code exactly when the exactly-once argument below assumes it is. -/
+theorem parseBlock_gen (lb : UInt8) (rest : Bytes) :
+    Gen.secs1_parseBlock (lb.toNat : Int) rest =
+      some (match parseBlock lb rest with
+        | .ok b => (b.toGen, none)
+        | .error e => (Gen.secs1_block.zero, some e.goName)) :=
+  Secs1.parseBlock_gen lb rest
 
 /-! ## The RTY loop (character level) -/
 
